@@ -11,6 +11,13 @@ A case:
    'inputs': [{'rows': [[num..]..], 'labels': [int..] (datasets only)} ..],
    'form': 'single' | 'list' | 'array3'      (array3: residual matrices stacked to a 3-D ndarray)
    'dof': None | num | [num..]}                 numbers are ints or "p/q" (exact dyadics)
+ optional representation keys (the property quantifies over them silently):
+   'dtype' float64|int64|float32, 'labels_as' 'str', 'dof_as' tuple|ndarray|npint,
+   'layout' F|strided|readonly (memory layout / write protection of the arrays handed over),
+   'style' pos|default (all arguments positional | `method` / `dof` omitted where they equal the
+   default), 'desc' name of the observation descriptor, 'decoy' True (a second descriptor with a
+   different partition comes first), 'container' 'tuple', inputs[i]['p'] (list elements with
+   their own channel count), and a dof list shorter / longer than the input list (malformed).
 
 'residuals' cases call cov_from_residuals / prec_from_residuals; 'dataset' cases call both
 cov_from_measurements and cov_from_unbalanced (+ the two prec_from_*) on the same dataset(s).
@@ -34,27 +41,36 @@ THEOREMS = [P + n for n in (
     'full_symm', 'shrink_symm', 'full_psd', 'shrink_psd', 'shrink_pd_when_active',
     'residual_terms_agree', 'unbalanced_residuals_centered', 'unbalanced_full_is_pooled_cov',
     'measurements_eq_unbalanced_on_balanced', 'estimate_perm', 'unbalanced_perm',
-    'measurements_perm',
-    'prec_is_inverse', 'fast_eq_model')]
+    'measurements_perm', 'unbalanced_relabel', 'measurements_relabel',
+    'eye_unshrunk_when_target_reached', 'sdiag_constant_channel_unshrunk', 'sdDegenerate_iff',
+    'source_skeletons', 'dispatch_table', 'dof_default', 'tensor_layout', 'inputs_not_written',
+    'prec_is_inverse', 'singular_has_no_precision', 'constant_channel_singular', 'fast_eq_model')]
 RULE = ('one PRNG; residual matrices n=2..12 x p=1..6 (incl. p > n), datasets with 1..5 conditions '
         'x 1..5 repetitions in shuffled row order with arbitrary integer or string labels, balanced '
         'and unbalanced; values are small integers / halves (exact in binary) stored as float64, '
-        'int64 or float32; four methods; dof None / scalar (python or numpy) / list, tuple or '
-        'ndarray; single inputs, lists, stacked 3-D arrays.  A case is non-trivial '
+        'int64 or float32, C / Fortran / strided / read-only; ~12 % of the inputs have a constant '
+        '(zero residual variance) channel; four methods; dof None / scalar (python or numpy) / list, '
+        'tuple or ndarray (also too short / too long); single inputs, lists and tuples (elements may '
+        'differ in channel count), stacked 3-D arrays; keyword, positional and default-argument call '
+        'styles; descriptor name varied, decoy descriptor present.  A case is non-trivial '
         'when at least one covariance was returned; distinct = distinct (kind, method, form, dof, '
-        'inputs)')
+        'inputs, representation keys)')
 BRANCHES = ['res:single', 'res:list', 'res:array3', 'ds:single:balanced', 'ds:single:unbalanced',
             'ds:list', 'dof:none', 'dof:scalar', 'dof:list', 'res:list+dof:list',
             'method:full', 'method:diag', 'method:shrinkage_eye', 'method:shrinkage_diag',
             'eye:in', 'eye:hi', 'sdiag:in', 'sdiag:hi', 'sdiag:lo', 'intensity:degenerate',
             'p=1', 'p>n', 'prec:compared', 'prec:singular', 'measurements:ValueError',
             'dtype:float64', 'dtype:int64', 'dtype:float32', 'labels:str', 'dof:tuple', 'dof:ndarray',
-            'dof:npint', 'ds:one-condition']
+            'dof:npint', 'ds:one-condition',
+            # round 3
+            'sdiag:const', 'const-channel:full', 'const-channel:diag', 'const-channel:shrinkage_eye',
+            'eye:deg:dof-passed', 'prec:singular:LinAlgError', 'prec:singular:returned',
+            'list:mixed-p', 'dof:list:short', 'dof:list:long', 'call:pos', 'call:default',
+            'desc:renamed', 'desc:decoy', 'container:tuple', 'layout:F', 'layout:strided',
+            'layout:readonly', 'ds:labels-unsorted', 'malformed:0d', 'malformed:1d']
 ASSUMPTIONS = [
     'numpy float64 evaluation of the closed-form estimators is within 1e-9 relative of the exact '
     'value on the generated (small, dyadic) inputs',
-    'shrinkage_diag is exercised only on inputs whose every channel has non-zero residual variance '
-    '(the Schaefer-Strimmer intensity is defined through correlations)',
     'precisions are compared / required only where the covariance is invertible with condition '
     'number <= 1e7',
 ]
@@ -135,14 +151,17 @@ def _canon_mat(m, p):
     return [[float(v) for v in r] for r in m]
 
 
-def _canon_out(out, p, form):
-    """the value a cov_from_* / prec_from_* call returned -> {'container', 'items'}"""
+def _canon_out(out, ps, form):
+    """the value a cov_from_* / prec_from_* call returned -> {'container', 'items'};
+    ps = expected channel count per element"""
+    def pat(i):
+        return ps[i] if i < len(ps) else ps[-1]
     if form == 'single':
-        return {'container': type(out).__name__, 'items': [_canon_mat(out, p)]}
+        return {'container': type(out).__name__, 'items': [_canon_mat(out, ps[0])]}
     if isinstance(out, np.ndarray) and out.ndim == 3:
-        return {'container': 'ndarray3', 'items': [_canon_mat(x, p) for x in out]}
+        return {'container': 'ndarray3', 'items': [_canon_mat(x, pat(i)) for i, x in enumerate(out)]}
     if isinstance(out, (list, tuple)):
-        return {'container': 'list', 'items': [_canon_mat(x, p) for x in out]}
+        return {'container': type(out).__name__, 'items': [_canon_mat(x, pat(i)) for i, x in enumerate(out)]}
     return {'container': type(out).__name__, 'items': [{'bad': 'not a list'}]}
 
 
@@ -160,25 +179,71 @@ def _call(fn, *a, **k):
 
 # ------------------------------------------------------------------ implementation
 
+def _lay(a, how):
+    """memory layout / write protection of an array handed to the library"""
+    if how == 'F':
+        return np.asfortranarray(a)
+    if how == 'strided' and a.ndim == 2:
+        big = np.zeros((2 * a.shape[0], 2 * a.shape[1] + 1), dtype=a.dtype)
+        big[::2, 1::2] = a
+        return big[::2, 1::2]              # non-contiguous view
+    if how == 'readonly':
+        a = a.copy()
+        a.setflags(write=False)            # an in-place store would raise ValueError
+        return a
+    return a
+
+
+def _ps(case):
+    """channel count of every input (list elements may carry their own)"""
+    return [i.get('p', case['p']) for i in case['inputs']]
+
+
+def _invoke(case, fn, arg, desc, dof, method):
+    """the call in the style of the case: keywords | all positional | defaults omitted"""
+    lead = (arg,) if desc is None else (arg, desc)
+    style = case.get('style', 'kw')
+    if style == 'pos':
+        return _call(fn, *lead, dof, method)
+    kw = {'dof': dof, 'method': method}
+    if style == 'default':
+        if dof is None:
+            del kw['dof']
+        if method == 'shrinkage_diag':
+            del kw['method']
+    if desc is not None and style == 'kw' and case.get('desc'):
+        return _call(fn, arg, obs_desc=desc, **kw)
+    return _call(fn, *lead, **kw)
+
+
 def run_impl(case):
     from rsatoolbox.data import noise as N
     from rsatoolbox.data import Dataset
-    p, form, method = case['p'], case['form'], case['method']
+    form, method = case['form'], case['method']
+    if case['kind'] == 'malformed':
+        # not a residual matrix at all: a 0-d array / a 1-D vector (the input check of `_check_demean`)
+        arg = np.array(3.0) if form == '0d' else np.array([1.0, -2.0, 4.0])
+        return {'calls': {'residuals:' + name: _call(fn, arg, method=method)
+                          for name, fn in (('cov', N.cov_from_residuals), ('prec', N.prec_from_residuals))},
+                'unchanged': True}
+    ps = _ps(case)
     dof = _dof_arg(case)
-    mats = [_arr(i['rows'], case.get('dtype', 'float64')) for i in case['inputs']]
+    lay = case.get('layout')
+    mats = [_lay(_arr(i['rows'], case.get('dtype', 'float64')), lay) for i in case['inputs']]
     res = {'calls': {}}
+    seq = tuple if case.get('container') == 'tuple' else list
     if case['kind'] == 'residuals':
         if form == 'single':
             arg = mats[0]
         elif form == 'array3':
-            arg = np.stack(mats, axis=0)
+            arg = _lay(np.stack(mats, axis=0), lay)
         else:
-            arg = list(mats)
+            arg = seq(mats)
         before = copy.deepcopy(arg)
         for name, fn in (('cov', N.cov_from_residuals), ('prec', N.prec_from_residuals)):
-            out = _call(fn, arg, dof=dof, method=method)
+            out = _invoke(case, fn, arg, None, dof, method)
             res['calls']['residuals:' + name] = out if isinstance(out, dict) and 'exc' in out \
-                else _canon_out(out, p, 'single' if form == 'single' else 'list')
+                else _canon_out(out, ps, 'single' if form == 'single' else 'list')
         after = arg
         if form == 'list':
             res['unchanged'] = all(np.array_equal(a, b) for a, b in zip(before, after))
@@ -186,18 +251,25 @@ def run_impl(case):
             res['unchanged'] = bool(np.array_equal(before, after))
     else:
         as_str = case.get('labels_as') == 'str'
-        dss = [Dataset(m, obs_descriptors={'cond': [f'c{lab:02d}' if as_str else lab for lab in i['labels']]})
-               for m, i in zip(mats, case['inputs'])]
-        arg = dss[0] if form == 'single' else dss
-        before = [(d.measurements.copy(), list(d.obs_descriptors['cond'])) for d in dss]
+        desc = case.get('desc', 'cond')
+        dss = []
+        for m, i in zip(mats, case['inputs']):
+            od = {}
+            if case.get('decoy'):
+                od['run'] = [q % 2 for q in range(len(i['labels']))]
+            od[desc] = [f'c{lab:02d}' if as_str else lab for lab in i['labels']]
+            dss.append(Dataset(m, obs_descriptors=od))
+        arg = dss[0] if form == 'single' else seq(dss)
+        before = [(d.measurements.copy(), {k: list(v) for k, v in d.obs_descriptors.items()}) for d in dss]
         for est, cf, pf in (('measurements', N.cov_from_measurements, N.prec_from_measurements),
                             ('unbalanced', N.cov_from_unbalanced, N.prec_from_unbalanced)):
             for name, fn in (('cov', cf), ('prec', pf)):
-                out = _call(fn, arg, 'cond', dof=dof, method=method)
+                out = _invoke(case, fn, arg, desc, dof, method)
                 res['calls'][est + ':' + name] = out if isinstance(out, dict) and 'exc' in out \
-                    else _canon_out(out, p, 'single' if form == 'single' else 'list')
+                    else _canon_out(out, ps, 'single' if form == 'single' else 'list')
         res['unchanged'] = all(
-            np.array_equal(d.measurements, b[0]) and list(d.obs_descriptors['cond']) == b[1]
+            np.array_equal(d.measurements, b[0])
+            and {k: list(v) for k, v in d.obs_descriptors.items()} == b[1]
             for d, b in zip(dss, before))
     return res
 
@@ -209,16 +281,20 @@ def _mode(case):
 
 
 def model_requests(case):
+    if case['kind'] == 'malformed':
+        return []
     base = {'op': 'c14.run', 'mode': _mode(case), 'method': case['method'], 'p': case['p'],
             'inputs': case['inputs'], 'as_list': case['form'] != 'single', 'dof': case['dof']}
+    if isinstance(case['dof'], list) and len(case['dof']) > len(case['inputs']):
+        base['dof'] = case['dof'][:len(case['inputs'])]      # surplus entries are never read
     if case['kind'] == 'residuals':
         return [dict(base, kind='residuals')]
     return [dict(base, kind='measurements'), dict(base, kind='unbalanced')]
 
 
-def _num(case, x):
+def _num(case, x, missing=None):
     if x is None:
-        return None
+        return missing
     if _mode(case) == 'float' and isinstance(x, str) and '/' not in x and len(x) == 16:
         return unfbits(x)
     return float(_fr(x))
@@ -229,10 +305,12 @@ def _mat(case, m, exact=False):
         return None
     if exact:
         return [[float(_fr(v)) for v in r] for r in m]
-    return [[_num(case, v) for v in r] for r in m]
+    return [[_num(case, v, float('nan')) for v in r] for r in m]      # null = not a finite number
 
 
 def model_result(case, answers):
+    if case['kind'] == 'malformed':
+        return {'calls': {}, 'unchanged': True, 'rejects': True}
     names = ['residuals'] if case['kind'] == 'residuals' else ['measurements', 'unbalanced']
     res = {'calls': {}, 'unchanged': True}
     info = []
@@ -245,7 +323,8 @@ def model_result(case, answers):
             covs.append(_mat(case, it['cov']))
             precs.append(_mat(case, it['prec'], exact=True))
             info.append({'est': name, 'clip': it['clip'], 'lam': _num(case, it['lam']),
-                         'singular': it['cov'] is not None and it['prec'] is None})
+                         'singular': it['cov'] is not None and it['prec'] is None,
+                         'index': len(covs) - 1})
         res['calls'][name + ':cov'] = covs
         res['calls'][name + ':prec'] = precs
     _model_info[_key(case)] = info
@@ -271,11 +350,22 @@ def _cond(cov, prec):
     return p * _maxabs(cov) * p * _maxabs(prec)
 
 
+def _short_dof(case):
+    return isinstance(case['dof'], list) and len(case['dof']) < len(case['inputs'])
+
+
 def compare(case, impl, model):
     _set_tol(case)
     if 'model_error' in model:
         return f"model error {model['model_error']}"
-    p = case['p']
+    # the exception a call the model rejects must raise: a dof sequence shorter than the input
+    # list is indexed past its end; otherwise the only rejection is np.stack on an unbalanced design
+    rejects_with = 'IndexError' if _short_dof(case) else 'ValueError'
+    if model.get('rejects'):
+        for call, r in impl['calls'].items():
+            if not (isinstance(r, dict) and r.get('exc') in ('ValueError', 'IndexError')):
+                return f'{call}: a {case["form"]} array is not a residual matrix, impl did not reject it'
+        return None
     for call, mres in model['calls'].items():
         est, which = call.split(':')
         ires = impl['calls'].get(call)
@@ -283,12 +373,13 @@ def compare(case, impl, model):
         raises = [c is None for c in mcov]
         if isinstance(ires, dict) and 'exc' in ires:
             if which == 'cov':
-                if any(raises) and ires['exc'] == 'ValueError':
+                if any(raises) and ires['exc'] == rejects_with:
                     continue
-                return f'{call}: impl raises {ires["exc"]}, model returns a value'
+                return f'{call}: impl raises {ires["exc"]}, model ' + (
+                    f'expects {rejects_with}' if any(raises) else 'returns a value')
             # prec: an exception is acceptable only if the covariance itself raises or a
             # covariance is singular / ill-conditioned (LinAlgError)
-            if any(raises) and ires['exc'] == 'ValueError':
+            if any(raises) and ires['exc'] == rejects_with:
                 continue
             sing = [pm is None or _cond(cm, pm) > _T['cond_max']
                     for cm, pm in zip(mcov, model['calls'][est + ':prec']) if cm is not None]
@@ -404,14 +495,27 @@ def _check_estimate(method, cov, S, tag):
         for k in range(p):
             if abs(T[j][k] - Sf[j][k]) > best:
                 best, bj, bk = abs(T[j][k] - Sf[j][k]), j, k
-    lam = 0.0
-    if best > max(1e-9, 10 * _T['eps']) * scale:
+    if best <= max(1e-9, 10 * _T['eps']) * scale:
+        # target and covariance (nearly) coincide: every intensity in [0,1] gives (nearly) the same
+        # matrix, so the intensity cannot be recovered; each entry must lie between the two
+        for j in range(p):
+            for k in range(p):
+                lo, hi = min(T[j][k], Sf[j][k]), max(T[j][k], Sf[j][k])
+                tol = _T['atol'] + _T['rtol'] * max(abs(lo), abs(hi), scale)
+                if not lo - tol <= cov[j][k] <= hi + tol:
+                    return _fail(f'{tag}: estimate is not a convex combination of the covariance and its '
+                                 f'target at [{j}][{k}]', cov[j][k], [lo, hi], defect='combination',
+                                 ratio=_ratio(cov[j][k], Sf[j][k]))
+        lam = None
+    else:
         lam = (cov[bj][bk] - Sf[bj][bk]) / (T[bj][bk] - Sf[bj][bk])
-    if not -_T['eps'] <= lam <= 1 + _T['eps']:
+    if lam is not None and not -_T['eps'] <= lam <= 1 + _T['eps']:
         return _fail(f'{tag}: shrinkage intensity outside [0,1]', lam, '[0,1]', defect='intensity',
                      ratio=_ratio(cov[bj][bk], Sf[bj][bk]))
     for j in range(p):
         for k in range(p):
+            if lam is None:
+                break
             want = lam * T[j][k] + (1 - lam) * Sf[j][k]
             if not _close(cov[j][k], want, scale):
                 return _fail(f'{tag}: estimate is not a convex combination of the covariance and its '
@@ -421,7 +525,8 @@ def _check_estimate(method, cov, S, tag):
     if ev.min() < -_T['eps'] * scale:
         return _fail(f'{tag}: estimate is not positive semi-definite', float(ev.min()), '>= 0', defect='psd')
     tdiag = min(T[j][j] for j in range(p))
-    if lam > _T['pd_lam'] and tdiag > _T['eps'] * scale and ev.min() <= _T['pd_eig'] * scale:
+    if lam is not None and lam > _T['pd_lam'] and tdiag > _T['eps'] * scale \
+            and ev.min() <= _T['pd_eig'] * scale:
         return _fail(f'{tag}: shrinkage active but estimate not positive definite', float(ev.min()),
                      '> 0', defect='pd')
     return None
@@ -464,7 +569,7 @@ def _check_prec(cov, prec, tag):
 
 
 def oracle(case):
-    if not _valid(case):
+    if case['kind'] == 'malformed' or not _valid(case):
         return None            # outside the case space the property / assumptions describe
     _set_tol(case)
     impl = run_impl(case)
@@ -541,6 +646,8 @@ def oracle(case):
 
 def features(case, impl):
     kind, form, method, p = case['kind'], case['form'], case['method'], case['p']
+    if kind == 'malformed':
+        return {'kind': kind, 'method': method, 'form': form, 'branches': ['malformed:' + form]}
     br = ['method:' + method, 'dof:' + _dof_kind(case)]
     balanced = None
     if kind == 'residuals':
@@ -564,16 +671,41 @@ def features(case, impl):
         br.append('dof:' + case['dof_as'])
     if kind == 'dataset' and any(len(set(i['labels'])) == 1 for i in case['inputs']):
         br.append('ds:one-condition')
-    if p == 1:
+    ps = _ps(case)
+    if 1 in ps:
         br.append('p=1')
-    if any(p > len(i['rows']) for i in case['inputs']):
+    if any(q > len(i['rows']) for q, i in zip(ps, case['inputs'])):
         br.append('p>n')
+    if len(set(ps)) > 1:
+        br.append('list:mixed-p')
+    if isinstance(case['dof'], list) and len(case['dof']) != len(case['inputs']):
+        br.append('dof:list:short' if _short_dof(case) else 'dof:list:long')
+    if case.get('style'):
+        br.append('call:' + case['style'])
+    if case.get('desc'):
+        br.append('desc:renamed')
+    if case.get('decoy'):
+        br.append('desc:decoy')
+    if case.get('container'):
+        br.append('container:' + case['container'])
+    if case.get('layout'):
+        br.append('layout:' + case['layout'])
+    if kind == 'dataset' and any(_first_seen(i['labels']) != sorted(set(i['labels'])) for i in case['inputs']):
+        br.append('ds:labels-unsorted')
+    const = any(not _ok_variances(i, kind) for i in case['inputs'])
+    if const and method != 'shrinkage_diag':
+        br.append('const-channel:' + method)
     info = _model_info.get(_key(case), [])
     degenerate = False
     for it in info:
         if it['clip']:
             if it['clip'] == 'deg':
                 br.append('intensity:degenerate')
+                degenerate = True
+                if method == 'shrinkage_eye' and case['dof'] is not None:
+                    br.append('eye:deg:dof-passed')
+            elif it['clip'] == 'const':
+                br.append('sdiag:const')
                 degenerate = True
             else:
                 br.append(('eye:' if method == 'shrinkage_eye' else 'sdiag:') + it['clip'])
@@ -584,19 +716,29 @@ def features(case, impl):
             if call.endswith(':prec') and isinstance(r, dict) and 'items' in r \
                     and not any(it['singular'] for it in info):
                 br.append('prec:compared')
+            if call.endswith(':prec') and isinstance(r, dict) \
+                    and 'items' in (impl['calls'].get(call.split(':')[0] + ':cov') or {}) \
+                    and any(it['singular'] for it in info if it['est'] == call.split(':')[0]):
+                # the outcome of np.linalg.inv on an exactly singular covariance
+                br.append('prec:singular:LinAlgError' if r.get('exc') == 'LinAlgError' else
+                          'prec:singular:returned' if 'items' in r else 'prec:singular:other')
             if call == 'measurements:cov' and isinstance(r, dict) and r.get('exc') == 'ValueError':
                 br.append('measurements:ValueError')
     return {'kind': kind, 'method': method, 'form': form, 'dofkind': _dof_kind(case), 'p': p,
-            'dtype': case.get('dtype', 'float64'),
+            'dtype': case.get('dtype', 'float64'), 'const_channel': const,
+            'layout': case.get('layout', 'C'), 'style': case.get('style', 'kw'),
             'n_inputs': len(case['inputs']), 'balanced': balanced, 'degenerate': degenerate,
             'branches': sorted(set(br))}
 
 
 def nontrivial_key(case, impl):
+    if case['kind'] == 'malformed':
+        return None
     if impl is None or not any(isinstance(r, dict) and 'items' in r for r in impl['calls'].values()):
         return None
     return [case['kind'], case['method'], case['form'], case['dof'], case['inputs'],
-            case.get('dtype'), case.get('labels_as'), case.get('dof_as')]
+            case.get('dtype'), case.get('labels_as'), case.get('dof_as'), case.get('layout'),
+            case.get('style'), case.get('desc'), case.get('decoy'), case.get('container')]
 
 
 # ------------------------------------------------------------------ generation
@@ -606,6 +748,14 @@ def _val(rng, halves):
     if halves and rng.random() < 0.3:
         return rat(F(2 * v + 1, 2))
     return v
+
+
+def _first_seen(labels):
+    out = []
+    for lab in labels:
+        if lab not in out:
+            out.append(lab)
+    return out
 
 
 def _ok_variances(inp, kind):
@@ -619,13 +769,13 @@ def _valid(case):
     """inside the stated case space (see RULE / ASSUMPTIONS)?"""
     for inp in case['inputs']:
         n = len(inp['rows'])
-        if n < 2 or any(len(r) != case['p'] for r in inp['rows']):
+        if n < 2 or any(len(r) != inp.get('p', case['p']) for r in inp['rows']):
             return False
         if case['kind'] == 'dataset':
             if len(inp['labels']) != n or n - len(set(inp['labels'])) < 1:
                 return False
-        if case['method'] == 'shrinkage_diag' and not _ok_variances(inp, case['kind']):
-            return False
+    if case['form'] != 'list' and len(set(_ps(case))) > 1:
+        return False
     if case['form'] == 'array3' and len({len(i['rows']) for i in case['inputs']}) > 1:
         return False
     if case.get('dtype') == 'int64' and any(_fr(x).denominator != 1 for i in case['inputs']
@@ -640,15 +790,38 @@ def _rows(rng, n, p, halves):
     return [[_val(rng, halves) for _ in range(p)] for _ in range(n)]
 
 
-def _residual_input(rng, n, p, method):
+def _constify(rng, inp, kind):
+    """make one channel carry no residual variance: the same value in every row, or (datasets)
+    one value per condition"""
+    p = len(inp['rows'][0])
+    j = rng.randrange(p)
+    if kind == 'dataset' and rng.random() < 0.5:
+        val = {lab: rng.randint(-6, 6) for lab in set(inp['labels'])}
+        for r, lab in zip(inp['rows'], inp['labels']):
+            r[j] = val[lab]
+    else:
+        v = rng.randint(-6, 6)
+        for r in inp['rows']:
+            r[j] = v
+    return inp
+
+
+def _residual_input(rng, n, p, method, const=None):
+    """const: True = one constant channel, False = every channel varies, None = 12 % constant"""
+    if const is None:
+        const = rng.random() < 0.12
     for _ in range(50):
         inp = {'rows': _rows(rng, n, p, rng.random() < 0.3)}
-        if method != 'shrinkage_diag' or _ok_variances(inp, 'residuals'):
+        if const:
+            return _constify(rng, inp, 'residuals')
+        if _ok_variances(inp, 'residuals'):
             return inp
     return {'rows': [[(i * (j + 2) + i * i) % 7 for j in range(p)] for i in range(n)]}
 
 
-def _dataset_input(rng, p, method, balanced, n_cond=None, n_rep=None):
+def _dataset_input(rng, p, method, balanced, n_cond=None, n_rep=None, const=None):
+    if const is None:
+        const = rng.random() < 0.12
     for _ in range(50):
         n_cond = n_cond or rng.choice([1, 2, 2, 3, 3, 4, 5])
         labs = rng.sample(range(0, 30), n_cond)
@@ -664,7 +837,9 @@ def _dataset_input(rng, p, method, balanced, n_cond=None, n_rep=None):
         inp = {'rows': _rows(rng, len(labels), p, rng.random() < 0.3), 'labels': labels}
         if len(labels) - n_cond < 1:
             continue
-        if method != 'shrinkage_diag' or _ok_variances(inp, 'dataset'):
+        if const:
+            return _constify(rng, inp, 'dataset')
+        if _ok_variances(inp, 'dataset'):
             return inp
     raise RuntimeError('could not generate a dataset')
 
@@ -690,17 +865,27 @@ def _random_case(rng):
     form = rng.choice(['single', 'single', 'list', 'list', 'array3'] if kind == 'residuals'
                       else ['single', 'single', 'single', 'list'])
     k = 1 if form == 'single' else rng.randint(1, 3)
+    mixed = form == 'list' and k > 1 and rng.random() < 0.25      # elements with their own channel count
+    ps = [rng.choice([1, 2, 3, 4]) if mixed and i else p for i in range(k)]
     if kind == 'residuals':
         if form == 'array3':
             n = rng.randint(2, 9)
             inputs = [_residual_input(rng, n, p, method) for _ in range(k)]
         else:
-            inputs = [_residual_input(rng, rng.randint(2, 12), p, method) for _ in range(k)]
+            inputs = [_residual_input(rng, rng.randint(2, 12), q, method) for q in ps]
     else:
         balanced = rng.random() < 0.65
-        inputs = [_dataset_input(rng, p, method, balanced) for _ in range(k)]
+        inputs = [_dataset_input(rng, q, method, balanced) for q in ps]
+    for q, inp in zip(ps, inputs):
+        if q != p:
+            inp['p'] = q
     case = {'kind': kind, 'method': method, 'p': p, 'inputs': inputs, 'form': form,
             'dof': _dof_for(rng, inputs, kind, form)}
+    if isinstance(case['dof'], list) and rng.random() < 0.08:       # malformed: wrong length
+        if rng.random() < 0.5 and len(case['dof']) > 1:
+            case['dof'] = case['dof'][:-1]
+        else:
+            case['dof'] = case['dof'] + [3]
     return _decorate(rng, case)
 
 
@@ -710,18 +895,29 @@ def _intify(inp):
     return out
 
 
-def _decorate(rng, case, dtype=None, labels_as=None, dof_as=None):
+def _decorate(rng, case, dtype=None, labels_as=None, dof_as=None, layout=None, style=None, desc=None,
+              decoy=None, container=None):
     """representation choices the property quantifies over silently: array dtype (float64,
-    integer counts, float32), label type (int / str), container of the dof argument"""
+    integer counts, float32), label type (int / str), container of the dof argument, memory
+    layout, call style, descriptor name / decoy descriptor, list vs tuple"""
     dtype = dtype or rng.choice(['float64'] * 6 + ['int64', 'int64', 'float32', 'float32'])
     if dtype == 'int64':
-        ints = [_intify(i) for i in case['inputs']]
-        if case['method'] != 'shrinkage_diag' or all(_ok_variances(i, case['kind']) for i in ints):
-            case['inputs'] = ints
-        else:
-            dtype = 'float64'
+        case['inputs'] = [_intify(i) for i in case['inputs']]
     if dtype != 'float64':
         case['dtype'] = dtype
+    layout = layout or rng.choice(['C'] * 5 + ['F', 'strided', 'readonly'])
+    if layout != 'C' and not (layout == 'strided' and case['form'] == 'array3'):
+        case['layout'] = layout
+    style = style or rng.choice(['kw'] * 3 + ['pos', 'default'])
+    if style != 'kw':
+        case['style'] = style
+    if case['kind'] == 'dataset':
+        if desc or (desc is None and rng.random() < 0.3):
+            case['desc'] = desc or 'stim'
+        if decoy or (decoy is None and rng.random() < 0.3):
+            case['decoy'] = True
+    if case['form'] == 'list' and (container == 'tuple' or (container is None and rng.random() < 0.25)):
+        case['container'] = 'tuple'
     if case['kind'] == 'dataset' and (labels_as or rng.choice(['int', 'int', 'str'])) == 'str':
         case['labels_as'] = 'str'
     if isinstance(case['dof'], list):
@@ -780,6 +976,57 @@ def _structured(rng):
            'inputs': [{'rows': [[1, 1], [1, -1], [-1, 1], [-1, -1]]}]}
     yield {'kind': 'residuals', 'method': 'shrinkage_eye', 'p': 2, 'form': 'single', 'dof': None,
            'inputs': [{'rows': [[1, 1], [1, -1], [-1, 1], [-1, -1]]}]}
+    # ---- round 3
+    # covariance equal to its Ledoit-Wolf target with a *passed* dof (residuals, dataset, list):
+    # the estimate must still carry that dof
+    yield {'kind': 'residuals', 'method': 'shrinkage_eye', 'p': 2, 'form': 'single', 'dof': 7,
+           'inputs': [{'rows': [[1, 1], [1, -1], [-1, 1], [-1, -1]]}]}
+    yield {'kind': 'residuals', 'method': 'shrinkage_eye', 'p': 1, 'form': 'list', 'dof': [2, rat(F(9, 2))],
+           'inputs': [_residual_input(rng, 5, 1, 'shrinkage_eye', const=False) for _ in range(2)]}
+    yield {'kind': 'dataset', 'method': 'shrinkage_eye', 'p': 1, 'form': 'single', 'dof': 3,
+           'inputs': [_dataset_input(rng, 1, 'shrinkage_eye', True, n_cond=2, n_rep=3, const=False)]}
+    for method in METHODS:
+        # a constant channel (no residual variance): residual matrix and dataset
+        yield {'kind': 'residuals', 'method': method, 'p': 3, 'form': 'single', 'dof': None,
+               'inputs': [_residual_input(rng, 6, 3, method, const=True)]}
+        yield _decorate(rng, {'kind': 'dataset', 'method': method, 'p': 2, 'form': 'single', 'dof': None,
+                              'inputs': [_dataset_input(rng, 2, method, True, n_cond=3, n_rep=2, const=True)]},
+                        dtype='float64', layout='C', style='kw')
+        # list elements with different channel counts, as a tuple
+        inputs = [_residual_input(rng, 6, 3, method), dict(_residual_input(rng, 5, 2, method), p=2)]
+        yield _decorate(rng, {'kind': 'residuals', 'method': method, 'p': 3, 'form': 'list',
+                              'dof': [4, 3], 'inputs': inputs}, dtype='float64', container='tuple')
+        inputs = [_dataset_input(rng, 2, method, False), dict(_dataset_input(rng, 4, method, True), p=4)]
+        yield _decorate(rng, {'kind': 'dataset', 'method': method, 'p': 2, 'form': 'list',
+                              'dof': None, 'inputs': inputs}, dtype='float64', container='list')
+        # positional call, renamed descriptor behind a decoy, labels first seen in descending order
+        inp = _dataset_input(rng, 2, method, True, n_cond=3, n_rep=2)
+        order = sorted(set(inp['labels']), reverse=True)
+        inp['labels'] = [order[i // 2] for i in range(6)]
+        yield _decorate(rng, {'kind': 'dataset', 'method': method, 'p': 2, 'form': 'single', 'dof': 2,
+                              'inputs': [inp]}, dtype='float64', style='pos', desc='stim', decoy=True)
+        # everything left at its default, Fortran / strided / read-only arrays
+        for layout in ('F', 'strided', 'readonly'):
+            yield _decorate(rng, {'kind': 'residuals', 'method': method, 'p': 3, 'form': 'single',
+                                  'dof': None, 'inputs': [_residual_input(rng, 7, 3, method)]},
+                            dtype='float64', layout=layout, style='default')
+        yield _decorate(rng, {'kind': 'dataset', 'method': method, 'p': 2, 'form': 'single', 'dof': None,
+                              'inputs': [_dataset_input(rng, 2, method, True, n_cond=2, n_rep=3)]},
+                        dtype='int64', layout='readonly', style='default')
+    # malformed: dof sequence of the wrong length
+    inputs = [_residual_input(rng, 5, 2, 'full') for _ in range(2)]
+    yield {'kind': 'residuals', 'method': 'full', 'p': 2, 'form': 'list', 'dof': [3], 'inputs': inputs}
+    yield {'kind': 'residuals', 'method': 'full', 'p': 2, 'form': 'array3', 'dof': [3, 4, 5], 'inputs': inputs}
+    yield {'kind': 'dataset', 'method': 'diag', 'p': 2, 'form': 'list', 'dof': [3], 'dof_as': 'tuple',
+           'inputs': [_dataset_input(rng, 2, 'diag', True) for _ in range(2)]}
+    # not a matrix at all (rejected by the input check / inside the estimator)
+    yield {'kind': 'malformed', 'method': 'full', 'p': 0, 'form': '0d', 'dof': None, 'inputs': []}
+    yield {'kind': 'malformed', 'method': 'shrinkage_eye', 'p': 0, 'form': '1d', 'dof': None, 'inputs': []}
+    # exactly singular covariances: zero pivot (LinAlgError) and rank deficiency hidden by rounding
+    yield {'kind': 'residuals', 'method': 'full', 'p': 2, 'form': 'single', 'dof': None,
+           'inputs': [{'rows': [[1, 0], [-1, 0], [2, 0]]}]}
+    yield {'kind': 'residuals', 'method': 'full', 'p': 3, 'form': 'single', 'dof': None,
+           'inputs': [{'rows': [[1, 2, 5], [3, 1, 1], [0, 3, 2]]}]}
 
 
 def generate(rng, tier):
@@ -800,15 +1047,14 @@ def search(rng, tier):
 def shrink(case, still_fails):
     """greedy: fewer inputs, fewer rows, fewer channels, simpler values"""
     cur = copy.deepcopy(case)
+    if case['kind'] == 'malformed':
+        return cur
 
     def attempt(c):
         nonlocal cur
         try:
             if not _valid(c):
                 return False
-            if c['method'].startswith('shrinkage') and not all(
-                    _ok_variances(i, c['kind']) for i in c['inputs']):
-                return False       # keep witnesses non-constant in every channel
             if still_fails(c):
                 cur = c
                 return True
@@ -822,7 +1068,7 @@ def shrink(case, still_fails):
         while len(cur['inputs']) > 1 and i < len(cur['inputs']):
             c = copy.deepcopy(cur)
             del c['inputs'][i]
-            if isinstance(c['dof'], list):
+            if isinstance(c['dof'], list) and i < len(c['dof']):
                 del c['dof'][i]
             if not attempt(c):
                 i += 1
@@ -838,7 +1084,7 @@ def shrink(case, still_fails):
                     i += 1
         # drop channels
         j = 0
-        while cur['p'] > 1 and j < cur['p']:
+        while cur['p'] > 1 and j < cur['p'] and len(set(_ps(cur))) == 1:
             c = copy.deepcopy(cur)
             c['p'] -= 1
             for inp in c['inputs']:
